@@ -23,6 +23,7 @@ type Spec struct {
 	Backoff   float64 `json:"backoff,omitempty"`
 	IncBy     int     `json:"increase_by,omitempty"`
 	ProbeMult int     `json:"probe_multiplier,omitempty"`
+	Funcs     string  `json:"vegas_custom_functions,omitempty"` // "" (defaults) | decrease=half | decrease=minus3 | threshold=0 | threshold=-1 | increase=plus2
 	QueueKind string  `json:"queue_kind,omitempty"` // fixed | sqrt
 	QueueArg  int     `json:"queue_arg,omitempty"`
 	RTTTol    float64 `json:"rtt_tolerance,omitempty"`
@@ -99,7 +100,21 @@ func (s Spec) New(reg core.MetricRegistry, name string, tags ...string) core.Lim
 	case "aimd":
 		return limit.NewAIMDLimit(name, s.Initial, s.Backoff, s.IncBy, reg, tags...)
 	case "vegas":
-		return limit.NewVegasLimitWithRegistry(name, s.Initial, nil, s.Max, s.Smoothing, nil, nil, nil, nil, nil,
+		var thr func(int) int
+		var inc, dec func(float64) float64
+		switch s.Funcs {
+		case "decrease=half":
+			dec = func(l float64) float64 { return l / 2 }
+		case "decrease=minus3":
+			dec = func(l float64) float64 { return l - 3 }
+		case "threshold=0":
+			thr = func(int) int { return 0 }
+		case "threshold=-1":
+			thr = func(int) int { return -1 }
+		case "increase=plus2":
+			inc = func(l float64) float64 { return l + 2 }
+		}
+		return limit.NewVegasLimitWithRegistry(name, s.Initial, nil, s.Max, s.Smoothing, nil, nil, thr, inc, dec,
 			s.ProbeMult, nil, reg, tags...)
 	case "gradient":
 		return limit.NewGradientLimitWithRegistry(name, s.Initial, s.Min, s.Max, s.Smoothing, s.Queue(), s.RTTTol,
@@ -119,6 +134,9 @@ func (s Spec) New(reg core.MetricRegistry, name string, tags ...string) core.Lim
 func LargeTables() bool {
 	return os.Getenv("GO_CONCURRENCY_LIMIT_LOG10ROOT_PRE_COMPUTE") != "" || os.Getenv("GO_CONCURRENCY_LIMIT_SQRT_PRE_COMPUTE") != ""
 }
+
+// VegasFuncs are the caller-supplied step / threshold functions a Vegas spec may carry (constructor arguments).
+var VegasFuncs = []string{"decrease=half", "decrease=minus3", "threshold=0", "threshold=-1", "increase=plus2"}
 
 // Kinds lists the adaptive algorithms.
 var Kinds = []string{"aimd", "vegas", "gradient", "gradient2"}
